@@ -448,7 +448,14 @@ def _classify_progress(idx, hb, a, depth=0):
     if n.get("k") in ("Ctor", "Struct"):
         return ("jump", "constructed " + (n.get("adt") or "").split("::")[-1])
     if n.get("k") == "Call":
-        return ("jump", "result of " + (n.get("callee") or "?").split("::")[-1])
+        cal = n.get("callee") or "?"
+        # the desugaring of `for item in xs`: item = next(&mut into_iter(xs))
+        if cal.endswith("iterator::Iterator::next") and n["args"]:
+            c = _classify_progress(idx, hb, n["args"][0], depth + 1)
+            return ("structural", "item of " + c[1]) if c[0] in ("structural", "same") else c
+        if cal.endswith("IntoIterator::into_iter") and n["args"]:
+            return _classify_progress(idx, hb, n["args"][0], depth + 1)
+        return ("jump", "result of " + cal.split("::")[-1])
     return ("jump", n.get("k", "?"))
 
 
